@@ -4,6 +4,7 @@ import (
 	"errors"
 	"fmt"
 	"hash/fnv"
+	"path/filepath"
 
 	"github.com/jsightapi/jsight-schema-core/bytes"
 	"github.com/jsightapi/jsight-schema-core/fs"
@@ -35,7 +36,7 @@ func (s *Stack) Push(scanner *Scanner, at bytes.Index) error {
 		s.uniqueFiles = map[string]struct{}{}
 	}
 
-	name := scanner.file.Name()
+	name := fileKey(scanner.file.Name())
 
 	if _, ok := s.uniqueFiles[name]; ok {
 		return errors.New(jerr.RecursionIsProhibited)
@@ -80,15 +81,21 @@ func (s *Stack) Pop() *Scanner {
 	}
 	e := s.stack[l-1].scanner
 	s.stack = s.stack[:l-1]
-	delete(s.uniqueFiles, e.file.Name())
+	delete(s.uniqueFiles, fileKey(e.file.Name()))
 	s.hashes = s.hashes[:l-1]
 	return e
 }
 
 // Contains returns true if a scanner of the file with the given name is in the stack.
 func (s *Stack) Contains(name string) bool {
-	_, ok := s.uniqueFiles[name]
+	_, ok := s.uniqueFiles[fileKey(name)]
 	return ok
+}
+
+// fileKey is the name under which a file is remembered: the root file keeps the name it was opened with
+// ("./root.jst", "dir//root.jst") while included files get cleaned names, and both must meet.
+func fileKey(name string) string {
+	return filepath.Clean(name)
 }
 
 // Empty returns true is stack is empty.
